@@ -57,6 +57,7 @@ def plan(tier, seed):
                 tasks.append({"kind": "classes", "bits": bits, "dt": dt, "tier": tier, "lo": lo, "hi": min(len(cfgs), lo + CH)})
             for g in ((8, 32) if tier == "quick" else (8, 32, 64, 128)):
                 tasks.append({"kind": "long", "bits": bits, "dt": dt, "g": g})
+            tasks.append({"kind": "reuse", "bits": bits, "dt": dt})
     return tasks
 
 
@@ -161,9 +162,53 @@ def _long_task(task, out):
                     out["nontrivial"] += 1
 
 
+def _reuse_task(task, out):
+    """Histories on ONE tensor object: quantize, modify the tensor in place, quantize again ... every result is judged against the
+    tensor's current values (no scale / zero-point may be remembered from an earlier call)."""
+    bits, dtname = task["bits"], task["dt"]
+    dt = num.DTYPES[dtname]
+    only = task.get("only")
+    steps = ["mul0.25", "add3", "copy_new", "neg", "mul40"]
+    for shape, axis, gs in [((4, 8), 0, None), ((4, 8), 0, 4), ((8, 4), -1, None), ((8, 4), -1, 2), ((2, 3, 4), 0, 6)]:
+        gid, pos, ng, gsz = wq.group_ids(shape, axis, gs)
+        for order in itertools.permutations(range(len(steps)), 3):
+            if only and only != [list(shape), axis, gs, list(order)]:
+                continue
+            table = torch.stack([wq.gen_class(wq.CLASSES[(k * 3 + 8) % len(wq.CLASSES)], gsz, dtname, k) for k in range(ng)])
+            x = wq.fill(shape, axis, gs, table, dt)
+            hist = []
+            for si in (None,) + order:
+                if si is not None:
+                    st = steps[si]
+                    hist.append(st)
+                    with torch.no_grad():
+                        if st == "mul0.25":
+                            x.mul_(0.25)
+                        elif st == "add3":
+                            x.add_(3.0)
+                        elif st == "copy_new":
+                            x.copy_(torch.flip(x, [0]) * 1.5 - 0.5)
+                        elif st == "neg":
+                            x.neg_()
+                        else:
+                            x.mul_(40.0)
+                fields = {"kind": "reuse", "bits": bits, "dtype": dtname, "axis": axis, "grouped": gs is not None}
+                case = dict(task, only=[list(shape), axis, gs, list(order)])
+                before = len(out["violations"])
+                _eval(x, bits, axis, gs, dtname, case, fields, out)
+                if len(out["violations"]) > before:
+                    out["violations"][-1]["msg"] += f" (same tensor object re-quantized after in-place steps {hist})"
+                    break
+            out["points"] += 1
+            out["nontrivial"] += 1
+
+
 def run_task(task):
     out = {"evals": 0, "nontrivial": 0, "points": 0, "calls": 0, "violations": [], "samples": [], "counters": {}}
-    if task["kind"] == "v9":
+    if task["kind"] == "reuse":
+        _reuse_task(task, out)
+        out["samples"].append({"kind": "reuse", "shape": [4, 8], "axis": 0, "group_size": 4, "history": ["quantize", "x.mul_(0.25)", "quantize", "x.add_(3)", "quantize"]})
+    elif task["kind"] == "v9":
         _v9_task(task, out)
         out["samples"].append(dict(task, example_group=[-1000.0, 2.0**-10, 1.0, 3.0][: task["g"]]))
     elif task["kind"] == "classes":
@@ -182,7 +227,9 @@ def run_task(task):
 
 def replay_task(case):
     out = {"evals": 0, "nontrivial": 0, "points": 0, "calls": 0, "violations": [], "samples": [], "counters": {}}
-    if case["kind"] == "v9":
+    if case["kind"] == "reuse":
+        _reuse_task(case, out)
+    elif case["kind"] == "v9":
         _v9_task(case, out)
     elif case["kind"] == "classes":
         _classes_task(case, out)
